@@ -3,6 +3,7 @@ import Kopf.Model.C19_Watch
 import Kopf.Model.C19_Ensemble
 import Kopf.Model.C19_Insights
 import Kopf.Model.C19_Orchestrator
+import Kopf.Model.C19_Resources
 open Lean
 namespace Kopf.Drv.C19
 open Kopf.C19
@@ -129,20 +130,20 @@ def nsFold (base : List Nat) (univ : List Nat) : List Out → List Out → List 
         :: nsFold base univ outs rest
 
 def markOf? : String → Option NsMark
-  | "live" => some .live | "blocked" => some .blocked | "finishing" => some .finishing | _ => none
+  | "live" => some .live | "blocked" => some .blocked | "finishing" => some .finishing | "odd" => some .odd | _ => none
 
-/-- a fed item with the reading of its body: `[type | null, key, mark]`; null = a listed item of the stream (ignored
-    by `process_discovered_namespace_event`) -/
+/-- a fed item with the reading of its body and the patterns' verdict on its name: `[type | null, key, mark, matched]`;
+    null = a listed item of the stream (ignored by `process_discovered_namespace_event`) -/
 def nsEvOf? (j : Json) : Option (Option NsEv) := do
   match ← jArr? j with
-  | [.null, _, _] => some none
-  | [.str t, k, m] => some (some ⟨t == "DELETED", ← (jStr? m >>= markOf?), ← jNat? k⟩)
+  | [.null, _, _, _] => some none
+  | [.str t, k, m, ok] => some (some ⟨t == "DELETED", ← (jStr? m >>= markOf?), ← jNat? k, ← jBool? ok⟩)
   | _ => none
 
-/-- the observer's own listing: `[key, mark]` per body, through `revise_namespaces(raw_bodies=…)` -/
+/-- the observer's own listing: `[key, mark, matched]` per body, through `revise_namespaces(raw_bodies=…)` -/
 def nsBaseOf? (j : Json) : Option NsEv := do
   match ← jArr? j with
-  | [k, m] => some ⟨false, ← (jStr? m >>= markOf?), ← jNat? k⟩
+  | [k, m, ok] => some ⟨false, ← (jStr? m >>= markOf?), ← jNat? k, ← jBool? ok⟩
   | _ => none
 
 /-- after every fed item: the served keys (sorted) -/
@@ -152,6 +153,24 @@ def nsRevise (served : List Nat) : List (Option NsEv) → List (List Nat)
   | some e :: rest => let s' := reviseNs served e; s' :: nsRevise s' rest
 
 def sortNat (xs : List Nat) : List Nat := (xs.toArray.qsort (· < ·)).toList
+
+/-- a watched resource: `[id, core, list, watch, patch]` -/
+def rscOf? (j : Json) : Option Kopf.C19.Rsc.Res := do
+  match ← jArr? j with
+  | [i, c, l, w, p] => some ⟨← jNat? i, ← jBool? c, ← jBool? l, ← jBool? w, ← jBool? p⟩
+  | _ => none
+
+def hkindOf? : String → Option Kopf.C19.Rsc.HKind
+  | "indexing" => some .indexing | "watching" => some .watching | "spawning" => some .spawning
+  | "changing" => some .changing | _ => none
+
+/-- a handler: `[kind, is_specific, [ids of the resources its selector's check accepts]]` -/
+def handlerOf? (j : Json) : Option Kopf.C19.Rsc.Handler := do
+  match ← jArr? j with
+  | [k, sp, ids] =>
+      let ids ← (← jArr? ids).mapM jNat?
+      some ⟨← (jStr? k >>= hkindOf?), ⟨← jBool? sp, fun r => ids.contains r.id⟩⟩
+  | _ => none
 
 open Kopf.C19.Ens in
 /-- an orchestrator label: ["revise", insights] | ["acquire"] | ["termDone"] | ["spawnAll"] | ["die", [name, ns]] -/
@@ -184,11 +203,18 @@ def handle : DrvHandler := fun op args =>
       let fs ← jArr? feed
       let outs ← (fs.zipIdx).mapM (fun (j, i) => feedOf? j (i + 1))
       some (ok (.arr ((nsFold b u [] outs).map (fun ks => Json.arr (ks.map (fun (k : Nat) => Json.num ((k : Nat) : Int))).toArray)).toArray))
-  | "C19.nsrevise", [base, feed, _univ] => do
+  | "C19.nsrevise", [served0, base, feed] => do
+      let s0 ← (← jArr? served0).mapM jNat?
       let b ← (← jArr? base).mapM nsBaseOf?
       let fs ← (← jArr? feed).mapM nsEvOf?
-      let rows := nsRevise (reviseAll [] b) fs
+      let first := reviseAll s0 b
+      let rows := first :: nsRevise first fs
       some (ok (.arr (rows.map (fun ks => Json.arr ((sortNat ks).map (fun (k : Nat) => Json.num ((k : Nat) : Int))).toArray)).toArray))
+  | "C19.served", [resources, handlers] => do
+      let rs ← (← jArr? resources).mapM rscOf?
+      let hs ← (← jArr? handlers).mapM handlerOf?
+      let out := Kopf.C19.Rsc.servedOf Kopf.C19.Rsc.patchKinds rs hs
+      some (ok (.arr ((sortNat (out.map (·.id))).map (fun (k : Nat) => Json.num ((k : Nat) : Int))).toArray))
   | "C19.run", [srv0, acts] => do
       let s0 ← jNat? srv0
       let as ← (← jArr? acts).mapM actOf?
